@@ -590,13 +590,14 @@ fn sig_case(out: &mut Out, s: &mut Sess, rng: &mut StdRng) {
         14 => { sg[32] ^= 0x80; if signed { exp = notkey(&keyhex); } }                                                      // the recovery bit
         15 => { let i = rng.gen_range(0..256); mg[i / 8] ^= 1 << (i % 8); if signed { exp = notkey(&keyhex); } }            // a bit of the message
         16 => { mg = rand32(rng); if signed { exp = notkey(&keyhex); } }
-        17 | 18 => {                                                                              // the twin with s' = n - s (and the other parity)
+        17 | 18 => {                                                                              // s in the window n/2 < s < 2^255 ("high s")
             let v = sg[32] & 0x80;
-            let mut sv = [0u8; 32];
-            sv.copy_from_slice(&sg[32..]);
-            sv[0] &= 0x7f;
-            let (t, _) = be_sub(&n, &sv);
-            if t[0] & 0x80 == 0 { sg[32..].copy_from_slice(&t); sg[32] |= v ^ 0x80; if signed { exp = json!({"k": "key_or_fail", "key": keyhex.clone().unwrap()}); } }
+            let mut half = n;                                                                     // floor(n / 2)
+            let mut carry = 0u8;
+            for b in half.iter_mut() { let t = *b; *b = (t >> 1) | (carry << 7); carry = t & 1; }
+            let sv = if rng.gen_bool(0.5) { be_add(&half, &be_u64(rng.gen_range(1..u64::MAX))).0 }
+                     else { let mut t = [0xffu8; 32]; t[0] = 0x7f; be_sub(&t, &be_u64(rng.gen_range(0..u64::MAX))).0 };
+            if sv[0] & 0x80 == 0 { sg[32..].copy_from_slice(&sv); sg[32] |= v; exp = Value::Null; }
         }
         19 => { sg[..32].copy_from_slice(&[0u8; 32]); exp = json!({"k": "fail"}); }              // r = 0
         20 => { let v = sg[32] & 0x80; sg[32..].copy_from_slice(&[0u8; 32]); sg[32] |= v; exp = json!({"k": "fail"}); }   // s = 0
@@ -761,7 +762,7 @@ fn epar_case(out: &mut Out, s: &mut Sess, rng: &mut StdRng, pool: &mut Pool) {
     let mut elems: Vec<([u8; 64], [u8; 128])> = vec![];
     let mut exp = Value::Null;
     let p = if pool.g1.is_empty() { g1_gen() } else { *pool.g1.choose(rng).unwrap() };
-    let shape = rng.gen_range(0..22);
+    let shape = match rng.gen_range(0..30) { x if x < 22 => x, 22 | 23 | 24 => 3, 25 | 26 => 4, 27 => 1, 28 => 2, _ => 9 };
     match shape {
         0 => {}                                                                                   // the empty product
         1 => { elems.push((p, q)); elems.push((g1_neg(&p), q)); }                                 // e(P,Q) e(-P,Q) = 1
@@ -860,13 +861,13 @@ fn family(o: &Opts, out: &mut Out, run: &mut u64, part: &str) {
     let mut rng = o.rng(salt);
     let reps = |quick: usize, full: usize| o.opt("--reps").and_then(|s| s.parse().ok()).unwrap_or(if thorough { full } else { quick });
     let (cases, per_session) = match part {
-        "hash" => (reps(260, 4000), 130),
-        "sig" => (reps(260, 4000), 130),
-        "ed" => (reps(160, 2500), 80),
-        "ecop" => (reps(220, 3000), 110),
-        "epar" => (reps(70, 700), 35),
-        "block" => (reps(260, 3000), 130),
-        _ => (reps(180, 2400), 90),     // frame: a mixture of all families inside a contract frame
+        "hash" => (reps(180, 4000), 90),
+        "sig" => (reps(200, 4000), 100),
+        "ed" => (reps(110, 2500), 55),
+        "ecop" => (reps(150, 3000), 75),
+        "epar" => (reps(60, 800), 30),
+        "block" => (reps(180, 3000), 90),
+        _ => (reps(140, 2400), 70),     // frame: a mixture of all families inside a contract frame
     };
     let mut done = 0usize;
     let mut sess_no = 0u64;
